@@ -5,7 +5,7 @@ on hand-made signals (flat, strictly monotone, plateau, zig-zag, wrong-way and t
 Model/BurstFeat.v monotonicity_row (runner in Model/TableRuns.v)."""
 import math
 import numpy as np
-from harness import coqio, pipeline
+from harness import coqio, pipeline, tablelayout
 from harness.core import exc_kind
 from harness.pipeline import TRUST
 
@@ -24,7 +24,9 @@ RULE = ('(a) compute_features(burst_method="cycles") on generated signals of all
         'weighted up), both centrings; (b) compute_amp_fraction / compute_amp_consistency / compute_period_consistency with '
         'direction in {both,next,last} on synthetic tables of both centrings with positive, zero, negative, equal and NaN '
         'flank voltages and tied amplitudes; (c) compute_monotonicity on hand-made signals whose flanks are strictly '
-        'monotone, flat, plateau-rich, zig-zag, wrong-way, one-ulp steps or two samples long, both centrings; '
+        'monotone, flat, plateau-rich, zig-zag, wrong-way, one-ulp steps or two samples long, both centrings; about 40 % of '
+        'the synthetic tables of (b) and (c) are handed over with their columns in another order (sorted by name, '
+        'reversed, shuffled), some with an unrelated extra column; '
         'non-trivial = >= 3 rows (a, b), a row with monotonicity strictly between 0 and 1 (c)')
 ASSUMPTIONS = ['signals finite', 'sign of zero results not compared (-0 == +0)',
                'where the statement defines nothing, the oracle does not judge and only the model comparison applies: '
@@ -62,6 +64,9 @@ def cases(rng, tier):
                     'amps': [v() for _ in range(nrow)], 'index': rng.choice(['default', 'default', 'offset', 'reversed'])})
     for _ in range(400 if tier == 'quick' else 4000):
         out.append(_gen_mono(rng))
+    for c in out:       # column layout of the synthetic tables, drawn last so that the tables are those of earlier runs
+        if c['kind'].startswith('synthetic'):
+            c['cols'] = tablelayout.gen_layout(rng)
     return out
 
 
@@ -130,6 +135,7 @@ def run_impl(c):
         df.index = np.arange(n) + 5
     elif c.get('index') == 'reversed':
         df.index = np.arange(n)[::-1]
+    df = tablelayout.apply_layout(df, c.get('cols'))       # columns are addressed by name, wherever they stand
     out = {}
     try:
         out['af'] = _f([float(x) for x in np.asarray(compute_amp_fraction(df))])
@@ -158,6 +164,7 @@ def _run_mono(c):
                        'sample_next_' + side: np.array([r[2] for r in rows], dtype=int)})
     if c.get('index') == 'offset':
         df.index = np.arange(len(rows)) + 5
+    df = tablelayout.apply_layout(df, c.get('cols'))
     snap = sig.copy()
     try:
         mo = np.asarray(compute_monotonicity(df, sig), dtype=float)
@@ -258,7 +265,7 @@ def nontrivial(c, o):
 
 
 def kind_of(c, o):
-    return c['kind'] if c['kind'].startswith('synthetic') else pipeline.kind_of(c, o)
+    return c['kind'] + tablelayout.tag(c.get('cols')) if c['kind'].startswith('synthetic') else pipeline.kind_of(c, o)
 
 
 def _res(o, key):
